@@ -45,7 +45,9 @@ STMT_ERRORS = [
     ("param_prop_spread", "fn g_ps({a..}) {\n    return 1\n}"), ("param_item_spread", "fn g_is([a..]) {\n    return 1\n}"),
     ("param_index", "fn g_pi(ok_list[0]) {\n    return 1\n}"), ("param_range_index", "fn g_pr(ok_list[0:1]) {\n    return 1\n}"),
     ("param_prop", "fn g_pp(ok_obj.a) {\n    return 1\n}"), ("prop_name_bad_utf8", 'v_bad := ok_obj["é"[0]]'),
-    ("destructure_into_source_oob", "[ok_list[5], ok_list[0]] = ok_list"), ("destructure_into_source_type", '[ok_list[0], ok_list["x"]] = ok_list'),
+    ("destructure_into_source_oob", "ok_pair := [1, 2]\n[ok_pair[2], ok_pair[0]] = ok_pair"),
+    ("destructure_into_source_type", 'ok_pair := [1, 2]\n[ok_pair[0], ok_pair["x"]] = ok_pair'),
+    ("destructure_into_source_then_fail", "ok_pair := [1, 2]\n[ok_pair[1], ok_pair[0]] = ok_pair\nv_u := ok_pair[0] + zz_undefined"),
 
     ("prop_name_bad_utf8_lit", 'v_bad2 := {"é"[1:2]: 1}'), ("destruct_key_bad_utf8", '{"é"[0]: q9} := ok_obj'),
 ]
